@@ -56,12 +56,21 @@ def parseFlags (s : String) : Option (Bool × Bool) :=
   | ['d', c] => (authShape c).map fun a => (true, a)
   | _ => none
 
+/-- `sub` occurs in `s` -/
+def hasSub (sub : Bytes) : Bytes → Bool
+  | [] => sub.isEmpty
+  | c :: rest => sub.isPrefixOf (c :: rest) || hasSub sub rest
+
+/-- an ASCII name with an ACE prefix (`xn--`, any case) is itself validated by idna.ToASCII at
+    provision time; the model has no punycode, such names are outside the protocol -/
+def noAcePrefix (b : Bytes) : Bool := !hasSub (str "xn--") (lower b)
+
 /-- one configured sni name: `hex`, or `hex=hex` for a name with non-ASCII symbols — the name and what
     `idna.ToASCII` makes of it (an external call, observed by the harness). Exactly the non-ASCII
     names carry the second part. -/
 def parseSniName (tok : String) : Option (Bytes × Option Bytes) :=
   match tok.splitOn "=" with
-  | [h] => (hexField h).bind fun b => if noBraces b && isAscii b then some (b, none) else none
+  | [h] => (hexField h).bind fun b => if noBraces b && isAscii b && noAcePrefix b then some (b, none) else none
   | [h, c] =>
     match hexField h, hexField c with
     | some b, some a =>
